@@ -90,6 +90,11 @@ func (d *deferStreamLabelsVisitor) EnterDirective(ref int) {
 	labelString := d.operation.StringValueContentString(labelValue.Ref)
 
 	if previous, exists := d.seenLabels[labelString]; exists {
+		if previous.directiveRef == ref {
+			// The very same directive again: when the rule runs inside normalization, the walker
+			// revisits a selection set after a sibling was removed (e.g. @include(if: false)).
+			return
+		}
 		previousDirectiveName := d.operation.DirectiveNameBytes(previous.directiveRef)
 		d.StopWithExternalErr(operationreport.ErrDeferStreamDirectiveLabelMustBeUnique(
 			directiveName,
